@@ -184,8 +184,9 @@ var converters = struct {
 				return rueidis.BinaryString(value.Bytes()), true
 			},
 			StringToValue: func(value string) (reflect.Value, error) {
-				buf := unsafe.Slice(unsafe.StringData(value), len(value))
-				return reflect.ValueOf(buf), nil
+				// a copy: the string may be shared with the client side cache and with other fetched
+				// entities, and the caller is free to write into the []byte of its entity
+				return reflect.ValueOf([]byte(value)), nil
 			},
 		},
 		reflect.Float32: {
